@@ -375,6 +375,12 @@ def shape_graph_case(rng, name, st, tiny=False):
         gs, nn = rand_graphs(rng, tiny=tiny)
     if name == "GRAPH.PRINT*DIFF" and len(gs) >= 2 and rng.random() < 0.15:
         gs[-1] = gs[-2].clone()                                      # identical snapshots: nothing is pushed
+        if rng.random() < 0.5:                                       # ... also when a weight is 0.0 in one and -0.0 in the other (they are ==)
+            for d in sorted(gs[-1].edges):
+                if gs[-1].edges[d]:
+                    o, _w = gs[-1].edges[d][0]
+                    gs[-1].edges[d][0] = (o, 0x80000000); gs[-2].edges[d][0] = (o, 0)
+                    break
     st["graph"] = [g.wire() for g in gs]
     nid = lambda **kw: rand_node_id(rng, gs, nn, **kw)
     shaped = rng.random() < 0.9
